@@ -103,6 +103,7 @@ PROPERTIES["C15"] = {
         K("c15_lub_2", features=VC, timeout=600),
         K("c15_extend", features=VC, timeout=600),
         K("c15_replay_target_clock_filter", features=VC, timeout=900),
+        K("c15_extend_far", features=VC, timeout=900),
         K("c15_laws_4_4", features=VC, shared_covers=True, tier="thorough", timeout=1800),
         K("c15_lub_3", features=VC, tier="thorough", timeout=1800),
     ],
@@ -246,8 +247,11 @@ PROPERTIES["C17"] = {
 PROPERTIES["C20"] = {
     "level": "model_checking",
     "jobs": [
-        K("c20_map_constructors_fixed_hasher", timeout=900),
-        K("c20_set_constructors_fixed_hasher", timeout=900),
+        K("c20_map_constructors_concrete_probes", timeout=600, shared_covers=True),
+        K("c20_set_constructors_concrete_probes", timeout=600, shared_covers=True),
+        K("c20_deserialized_collections_fixed_hasher", timeout=900),
+        K("c20_map_constructors_fixed_hasher", timeout=900, shared_covers=True),
+        K("c20_set_constructors_fixed_hasher", timeout=900, shared_covers=True),
     ],
     "functions_encoded": [
         "deterministic_collections::HashMap::{new, with_capacity, default, from([..]), from_iter, from(std map), clone}",
@@ -281,6 +285,7 @@ PROPERTIES["C13"] = {
         K("c13_budget_round_robin", module="kp", timeout=600),
         K("c13_budget_replay_once", module="kp", timeout=600),
         K("c13_step_bound_arith", module="kp", timeout=600),
+        K("c13_budget_dfs_no_choices", module="kp", timeout=600),
     ],
     "functions_encoded": ["shuttle_schedulers::round_robin::RoundRobinScheduler::{new, new_execution}",
                           "shuttle_schedulers::replay::ReplayScheduler::new_execution"] + _DECISION_FUNCS,
